@@ -75,6 +75,41 @@ def build_traces(path, tier, seed):
             {"kind": "smooth", "fn": "calc_smooth_fa_spectrum(wide span)", "n": 512, "band": band, "targets": targets.tolist()})
         add({"kind": "matrix", "freqs": enc_seq(ff), "targets": enc_seq(targets), "band": enc(band), "cols": [enc_seq(mat[:, c]) for c in range(mat.shape[1])]},
             {"kind": "matrix", "n": 512, "band": band, "targets": targets.tolist(), "wide": True})
+    # history: the smoothed spectrum was evaluated once (band 40), then re-evaluated with another bandwidth / after the
+    # Fourier grid changed / after the record changed and the plain spectrum was read first
+    for j, band in enumerate((100.0, 5.0, 20.0, 60.0)):
+        x = rng.standard_normal(96)
+        o = eqsig.AccSignal(x, 0.01)
+        _ = o.smooth_fa_spectrum
+        if j == 2:
+            _ = im.calc_bandwidth_freqs(o)
+        if j == 3:
+            o.add_series(0.5 * np.sin(np.arange(96) / 2.0))
+            _ = o.fa_spectrum
+            band = 40.0
+            out = o.smooth_fa_spectrum
+        elif j % 2:
+            o.generate_smooth_fa_spectrum(band=band)
+            out = o.smooth_fa_spectrum
+        else:
+            o.gen_smooth_fa_spectrum(band=band)
+            out = o.smooth_fa_spectrum
+        add({"kind": "smooth", "freqs": enc_seq(o.fa_freqs), "amps": enc_seq(np.abs(o.fa_spectrum)), "targets": enc_seq(o.smooth_fa_freqs), "band": enc(band), "out": enc_seq(out)},
+            {"kind": "smooth", "fn": "Signal.smooth_fa_spectrum re-evaluated (history %d)" % j, "n": 96, "band": band})
+    # matrix form with default targets (None) on a grid that contains the zero-frequency bin
+    for band in (40.0, 5.0):
+        x = rng.standard_normal(24)
+        o = eqsig.AccSignal(x, 0.02)
+        ff = np.array(o.fa_freqs)
+        with warnings.catch_warnings():
+            warnings.simplefilter("ignore")
+            mat = np.asarray(fq.calc_smoothing_matrix_konno_1998(ff, band=band))
+            via = np.asarray(fq.calc_smooth_fa_spectrum_w_custom_matrix(o, mat)) if mat.shape[0] == len(ff) - 1 else np.zeros(0)
+            direct = fq.calc_smooth_fa_spectrum(ff, np.array(o.fa_spectrum), band=band)
+        add({"kind": "matrix", "freqs": enc_seq(ff), "targets": enc_seq(ff[1:]), "band": enc(band),
+             "cols": [enc_seq(mat[:, c]) for c in range(mat.shape[1])] if mat.shape[1] == len(ff) - 1 else []},
+            {"kind": "matrix", "default_targets": True, "shape": list(mat.shape), "band": band})
+        add({"kind": "rel", "clause": "MatrixEqualsDirect", "x": enc_seq(direct), "y": enc_seq(via), "f": enc(1.0)}, {"kind": "rel", "law": "MatrixEqualsDirect (default targets)", "band": band})
     nrec = 24 if tier == "quick" else 150
     for i in range(nrec):
         n = int([64, 100, 256, 300, 1000, 2048][i % 6]) if tier == "thorough" else int([50, 64, 100, 200, 256, 130][i % 6])
